@@ -124,7 +124,8 @@ static void crash_hook(const char* signame)
     const bool isf = std::strncmp(fn, "float2half", 10) == 0;
     const bool isd = std::strncmp(fn, "double2half", 11) == 0 || std::strncmp(fn, "longdouble2half", 15) == 0 || std::strncmp(fn, "int2half", 8) == 0 || std::strncmp(fn, "longlong2half", 13) == 0;
     std::vector<std::string> rp = RP(fn, {isd ? hx(g_a64, 16) : hx(g_a, isf ? 8 : 4)});
-    std::string ops = rp[2];
+    std::string ops = rp[rp.size() - 1];
+    if (std::strncmp(fn, "ld2half_", 8) == 0) { rp.push_back(hx(g_a64, 16)); ops += " " + rp.back(); }   // sign/exponent word, then the 64-bit significand
     if (n >= 2) { rp.push_back(hx(g_b, 4)); ops += " " + rp.back(); }
     if (n >= 3) { rp.push_back(hx(g_c, 4)); ops += " " + rp.back(); }
     vf::violation(std::string("C08/") + fn + g_sfx + "/crash/" + signame, std::string("[") + BLD() + "] " + fn + " died with " + signame + " on operands " + ops + " (bit patterns)", rp);
@@ -141,13 +142,15 @@ enum
     S_F2H, S_F2H_ASSIGN, S_H2F, S_H2F_CAST, S_H2D, S_H2D_CAST, S_SQRT, S_CLASS, S_NEG, S_FABS, S_HASH,
     S_ADD, S_SUB, S_MUL, S_DIV, S_CMP, S_COPYSIGN, S_FMA, S_FMAD,
     S_NF_D_CAST, S_NF_D_CAST_RN, S_NF_D_CTOR, S_NF_D_ASSIGN, S_NF_F_CTOR, S_NF_F_ASSIGN, S_NF_F_CAST, S_MIXED,
-    S_F2H_CAST, S_H2I, S_H2LL, S_H2LD, S_I2H_CAST, S_I2H_CTOR, S_LL2H_CAST, S_LD2H_CAST, S_NSTREAM
+    S_F2H_CAST, S_H2I, S_H2LL, S_H2LD, S_I2H_CAST, S_I2H_CTOR, S_LL2H_CAST, S_LD2H_CAST,
+    S_LDF_CAST, S_LDF_CAST_RN, S_LDF_LIT, S_LDF_CTOR, S_LDF_ASSIGN, S_LDF_MUL1, S_NSTREAM
 };
 static const char* const stream_name[S_NSTREAM] = {
     "float2half", "float2half_assign", "half2float", "half2float_cast", "half2double", "half2double_cast", "sqrt", "classify", "neg", "fabs", "hash",
     "add", "sub", "mul", "div", "cmp", "copysign", "fma", "fma_derived",
     "double2half_cast", "double2half_cast_rn", "double2half_ctor", "double2half_assign", "float2half_nan_ctor", "float2half_nan_assign", "float2half_nan_cast", "mixed",
-    "float2half_cast", "half2int_cast", "half2longlong_cast", "half2longdouble_cast", "int2half_cast", "int2half_ctor", "longlong2half_cast", "longdouble2half_cast"};
+    "float2half_cast", "half2int_cast", "half2longlong_cast", "half2longdouble_cast", "int2half_cast", "int2half_ctor", "longlong2half_cast", "longdouble2half_cast",
+    "ld2half_cast", "ld2half_cast_rn", "ld2half_literal", "ld2half_ctor", "ld2half_assign", "ld2half_mul1"};
 
 struct stream_t
 {
@@ -1351,6 +1354,243 @@ static void mode_nanfam()
                 h2s(impl_d2h_cast(mkd(0x7FF0000000000001ull))).c_str(), h2s(impl_d2h_cast(mkd(0xFFF0000000000000ull))).c_str());
 }
 
+// ------------------------------------------------------------------ source-type family (mode srcty): long double sources, JUDGED
+// Added for seeded change C08-12 (generic float2half_impl splits the scaled long double in double precision: sticky bits below
+// the 53rd significand bit are lost). The dimension is the SOURCE TYPE of the conversion to half: every arithmetic type the API
+// accepts besides float and double takes the generic routine float2half_impl(T, ...) - on this platform that is long double -
+// and that routine was never fed a value that a double cannot hold.
+// Long doubles (x87 80-bit: sign, 15-bit exponent field E, 64-bit significand with explicit integer bit) are built from bit
+// patterns; nothing is computed in floating point on the way in.
+//   anchors: every finite non-negative binary16 value V(h), 2^16, every rounding midpoint M(h) (2^-25 ... 65520): 63 489
+//   around every anchor, in ulps of the 64-bit significand: 0 and +-(2^j + d), d in {-1,0,+1}
+//     quick    j in {0..13 (below and at the 53-bit boundary: 2^10 = half a double ulp, 2^11 = one double ulp), 30..33 (32-bit word
+//              boundary), 38..42 (2^39 = half a float ulp, 2^40 = one float ulp), 50..53 (2^52 = half a binary16 ulp)}
+//     thorough j = 0..61
+//   x both signs; plus sign x EVERY exponent field 0..32767 x boundary significands (long double subnormals, infinities, NaNs).
+// Oracle (independent of the library): the long double's own bit pattern decoded to an exact integer significand * 2^e and
+// rounded once to nearest-even by href::round_mag (the routine every other C08 oracle uses); checked on every case against a
+// second, purely order-based definition of round-to-nearest-even: |x| must lie between the midpoints below and above the expected
+// half (exact long double comparisons with a table of the 31 744 midpoints), on a midpoint only if the expected half is even.
+// Entry points: half_cast<half>(long double), half_cast<half,std::round_to_nearest>(long double), operator"" _h(long double)
+// (all three: single rounding), half(long double), operator=(long double), long double * half(1) (documented: through
+// static_cast<float>; oracle = round to 24 bits nearest-even, then to binary16; not judged under a directed dynamic rounding mode,
+// where the language makes static_cast<float> follow the mode - there they only take part in the sw-vs-F16C comparison).
+// Integer sources (int2half) are NOT part of this family: the statement promises the rounding of floating sources only.
+typedef long double LD;
+static_assert(std::numeric_limits<LD>::digits == 64 && sizeof(LD) >= 10, "the long double family is written for the x87 80-bit format");
+static inline LD mkld(unsigned se, uint64_t sig)
+{
+    unsigned char b[sizeof(LD)];
+    std::memset(b, 0, sizeof b);
+    std::memcpy(b, &sig, 8);
+    const uint16_t w = uint16_t(se);
+    std::memcpy(b + 8, &w, 2);
+    LD v;
+    std::memcpy(&v, b, sizeof v);
+    return v;
+}
+NOINL static uint16_t impl_ldf_cast(LD d) { return bits(half_float::half_cast<H>(d)); }
+NOINL static uint16_t impl_ldf_cast_rn(LD d) { return bits(half_float::half_cast<H, std::round_to_nearest>(d)); }
+NOINL static uint16_t impl_ldf_lit(LD d) { return bits(half_float::literal::operator"" _h(d)); }
+NOINL static uint16_t impl_ldf_ctor(LD d) { H h(d); return bits(h); }
+NOINL static uint16_t impl_ldf_assign(LD d) { H h; h = d; return bits(h); }
+NOINL static uint16_t impl_ldf_mul1(LD d) { return bits(d * mk(0x3C00)); }
+
+enum { SRC_CAST = 1, SRC_CTOR = 2, SRC_THIN = 4, SRC_ALL = 7 };
+static std::vector<LD> MIDL;          // MIDL[a] = midpoint between the halves a and a+1 (a = 0..0x7BFF), exact
+static long long g_ld_cases = 0;
+
+struct ldref
+{
+    uint16_t single, viafloat;
+    rinfo ri;
+    bool special, nan;
+};
+static void ld_oracle(unsigned se, uint64_t sig, ldref& o)
+{
+    const bool neg = ((se >> 15) & 1u) != 0;
+    const unsigned E = se & 0x7FFFu;
+    const uint16_t s = neg ? 0x8000 : 0;
+    o.special = o.nan = false;
+    if (E == 0x7FFFu)
+    {
+        o.special = true;
+        o.ri.special = true;
+        o.nan = (sig << 1) != 0;
+        o.single = o.viafloat = uint16_t(s | (o.nan ? 0x7E00 : 0x7C00));
+        return;
+    }
+    if (sig == 0) { o.single = o.viafloat = s; o.ri.exact_zero = true; o.ri.res_sub = true; return; }
+    const int e2 = int(E ? E : 1u) - 16383 - 63, p = href::msb64(sig), ex = p + e2;
+    if (ex >= 17) { o.single = o.viafloat = uint16_t(s | 0x7C00); o.ri.inexact = true; o.ri.overflow = true; return; }
+    if (ex < -27) { o.single = o.viafloat = s; o.ri.inexact = true; o.ri.res_sub = true; return; }   // |x| < 2^-26: below half of the smallest subnormal, also after a rounding to float
+    o.single = href::round_mag<href::u128>(neg, href::u128(sig), e2, false, &o.ri);
+    // through float: 2^-27 <= |x| < 2^17 is the float-normal range, 24 significant bits, nearest-even; then once more to binary16
+    const int sh = p - 23;
+    uint64_t n = sig;
+    int fe = e2;
+    if (sh > 0)
+    {
+        n = sig >> sh;
+        const uint64_t rem = sig & ((1ull << sh) - 1), half = 1ull << (sh - 1);
+        if (rem > half || (rem == half && (n & 1))) ++n;
+        fe = e2 + sh;
+    }
+    o.viafloat = href::round_mag<uint64_t>(neg, n, fe, false, nullptr);
+}
+// the definition of round-to-nearest-even by order alone (second opinion for ld_oracle's single rounding)
+static bool ld_order_check(LD x, uint16_t expect)
+{
+    if (MIDL.empty())
+    {
+        MIDL.resize(0x7C00);
+        for (unsigned a = 0; a < 0x7C00; ++a) MIDL[a] = std::ldexp(LD(2 * unsigned(DEC[a].m) + 1), DEC[a].e - 1);   // exact in every environment: 12-bit integer times a power of two
+    }
+    const LD ax = x < 0 ? -x : x;
+    const unsigned a = expect & 0x7FFFu;
+    if (a == 0x7C00u) return ax >= MIDL[0x7BFF];
+    const bool even = (a & 1u) == 0;
+    if (!(ax < MIDL[a] || (ax == MIDL[a] && even))) return false;
+    if (a && !(ax > MIDL[a - 1] || (ax == MIDL[a - 1] && even))) return false;
+    return true;
+}
+static __attribute__((noinline, cold)) void fail_ld(const char* fn, unsigned se, uint64_t sig, const ldref& o, uint16_t expect, uint16_t got, bool viafloat)
+{
+    if (throttled(fn, ri_bits(o.ri, (o.nan ? 1u : 0u) | (o.special ? 2u : 0u) | (viafloat ? 4u : 0u)), kind_code(expect, got))) return;
+    std::string cls = o.nan ? "nan-operand" : o.special ? "inf-operand" : round_class(o.ri, ops_t(), o.single);
+    std::string kind = (o.nan && href::is_nan16(got)) ? "nan-sign-lost" : fail_kind(expect, got);
+    char v[80];
+    std::snprintf(v, sizeof v, "%.21Lg", mkld(se, sig));
+    vf::violation(std::string("C08/") + fn + "." C08_PATH + g_sfx + "/" + cls + "/" + kind,
+                  std::string("[") + BLD() + "] " + fn + "(long double sign/exponent " + hx(se, 4) + " significand " + hx(sig, 16) + " = " + v + ") returned " + h2s(got) + ", " +
+                      (viafloat ? "the documented conversion through float (nearest-even to 24 bits, then to binary16) gives " : "round-to-nearest-even binary16 of this value is ") + h2s(expect) +
+                      " [" + cls + " with respect to a single rounding]",
+                  RP(fn, {hx(se, 4), hx(sig, 16)}));
+}
+static void one_ld(unsigned se, uint64_t sig, int what, const char* only = nullptr)
+{
+    g_a = se;
+    g_a64 = sig;
+    g_nargs = 1;
+    const LD x = mkld(se, sig);
+    ldref o;
+    ld_oracle(se, sig, o);
+    ++g_ld_cases;
+    if (!o.special && sig != 0 && !ld_order_check(x, o.single))
+    {
+        std::printf("@@{\"t\":\"referr\",\"v\":\"long double oracle: round_mag and the order-based definition disagree on sign/exponent %04x significand %016llx\"}\n", se, (unsigned long long)sig);
+        return;
+    }
+    const bool directed = g_fenv_mode >= 0 && g_fenv_mode != FE_TONEAREST;   // static_cast<float> follows the mode: through-float entry points not judged
+    auto want = [&](const char* fn) { return !only || std::strcmp(only, fn) == 0; };
+    auto put = [&](const char* fn, int sid, uint16_t got, bool viafloat) {
+        ++g_eval;
+        const uint16_t e = viafloat ? o.viafloat : o.single;
+        if (viafloat && directed) ++g_pathonly;
+        else
+        {
+            const bool ok = o.nan ? (href::is_nan16(got) && (got >> 15) == (e >> 15)) : (got == e);
+            if (!ok) fail_ld(fn, se, sig, o, e, got, viafloat);
+        }
+        const uint16_t canon = href::is_nan16(got) ? uint16_t((got & 0x8000) | 0x7E00) : got;
+        emit(sid, canon, got);
+        if (g_verbose) std::printf("@@{\"t\":\"res\",\"fn\":\"%s\",\"v\":\"%04x\",\"expect\":\"%04x\"}\n", fn, canon, e);
+    };
+    if ((what & SRC_CAST) && want("ld2half_cast")) { CUR("ld2half_cast"); account(o.ri, o.single); put("ld2half_cast", S_LDF_CAST, impl_ldf_cast(x), false); ASAN_CHECK("ld2half_cast"); }
+    if ((what & SRC_CTOR) && want("ld2half_ctor")) { CUR("ld2half_ctor"); put("ld2half_ctor", S_LDF_CTOR, impl_ldf_ctor(x), true); }
+    if (what & SRC_THIN)
+    {
+        if (want("ld2half_cast_rn")) { CUR("ld2half_cast_rn"); put("ld2half_cast_rn", S_LDF_CAST_RN, impl_ldf_cast_rn(x), false); }
+        if (want("ld2half_literal")) { CUR("ld2half_literal"); put("ld2half_literal", S_LDF_LIT, impl_ldf_lit(x), false); }
+        if (want("ld2half_assign")) { CUR("ld2half_assign"); put("ld2half_assign", S_LDF_ASSIGN, impl_ldf_assign(x), true); }
+        if (want("ld2half_mul1")) { CUR("ld2half_mul1"); put("ld2half_mul1", S_LDF_MUL1, impl_ldf_mul1(x), true); }
+    }
+}
+
+static std::vector<uint64_t> ld_offsets(char set)
+{
+    std::vector<uint64_t> v;
+    auto add = [&](uint64_t o) { if (!o) return; for (uint64_t x : v) if (x == o) return; v.push_back(o); };
+    for (int j = 0; j <= 61; ++j)
+    {
+        const bool quick = j <= 13 || (j >= 30 && j <= 33) || (j >= 38 && j <= 42) || (j >= 50 && j <= 53);
+        if (set != 't' && !quick) continue;
+        add((1ull << j) - 1); add(1ull << j); add((1ull << j) + 1);
+    }
+    return v;
+}
+static void mode_srcty(char set, int shard, int nshard)
+{
+    const std::vector<uint64_t> off = ld_offsets(set);
+    auto thin = [](uint64_t o) { return o == 1 || o == (1ull << 10) || o == (1ull << 11) || o == (1ull << 39) || o == (1ull << 40) || o == (1ull << 52); };
+    long long nanch = 0;
+    for (unsigned h = 0; h <= 0x7C00; ++h)
+    {
+        if (int(h % unsigned(nshard)) != shard) continue;
+        if (set == 's' && !in512[h] && h != 0x7C00) continue;
+        const dec d = DEC[h];
+        uint64_t n[2];
+        int e2[2], na = 0;
+        if (h == 0x7C00) { n[na] = 1; e2[na++] = 16; }
+        else
+        {
+            if (d.m) { n[na] = d.m; e2[na++] = d.e; }
+            else { one_ld(0x0000, 0, SRC_ALL); one_ld(0x8000, 0, SRC_ALL); }
+            n[na] = 2ull * d.m + 1; e2[na++] = d.e - 1;
+        }
+        for (int k = 0; k < na; ++k)
+        {
+            const int p = href::msb64(n[k]);
+            const uint64_t sig = n[k] << (63 - p);
+            const unsigned E = unsigned(p + e2[k] + 16383);
+            ++nanch;
+            for (unsigned sgn = 0; sgn < 2; ++sgn)
+            {
+                const unsigned S = sgn << 15;
+                one_ld(S | E, sig, SRC_ALL);
+                for (uint64_t o : off)
+                {
+                    const int what = thin(o) ? SRC_ALL : (SRC_CAST | SRC_CTOR);
+                    uint64_t s2 = sig + o;
+                    unsigned E2 = E;
+                    if (s2 < sig) { s2 = (s2 >> 1) | (1ull << 63); E2 = E + 1; }          // carry out of the significand
+                    one_ld(S | E2, s2, what);
+                    s2 = sig - o;
+                    E2 = E;
+                    if (!(s2 >> 63)) { s2 <<= 1; E2 = E - 1; }                            // borrow: renormalise (exact, o <= 2^61 + 1)
+                    one_ld(S | E2, s2, what);
+                }
+            }
+        }
+    }
+    long long nsweep = 0;
+    if (shard == 0)
+    {
+        const uint64_t I = 1ull << 63;
+        const uint64_t pn[] = {I, I + 1, ~0ull, I + (1ull << 52), I + (1ull << 52) + 1, I + (1ull << 52) - 1, 0xFFE0000000000000ull, 0xFFF0000000000000ull, 0xFFEFFFFFFFFFFFFFull, 0xFFF0000000000001ull};
+        const uint64_t p0[] = {1, 2, 1ull << 62, I - 1};                                                     // long double subnormals
+        const uint64_t px[] = {I, I | 1, I | (1ull << 62), I | (1ull << 62) | 1, I | (1ull << 31), I | (1ull << 32), ~0ull, I | ((1ull << 62) - 1)};   // infinity and NaNs (valid encodings)
+        const unsigned Elo = set == 's' ? 16383 - 40 : 1, Ehi = set == 's' ? 16383 + 30 : 32766;
+        for (unsigned sgn = 0; sgn < 2; ++sgn)
+        {
+            const unsigned S = sgn << 15;
+            for (unsigned E = Elo; E <= Ehi; ++E)
+                for (uint64_t m : pn) { one_ld(S | E, m, SRC_ALL); ++nsweep; }
+            for (uint64_t m : p0) { one_ld(S, m, SRC_ALL); ++nsweep; }
+            for (uint64_t m : px) { one_ld(S | 0x7FFF, m, SRC_ALL); ++nsweep; }
+        }
+    }
+    const std::string sfx = std::string(C08_BUILD) + g_sfx;
+    vf::stat("source_type_family_long_doubles_" + sfx, g_ld_cases);
+    vf::stat("source_type_family_long_double_anchors_" + sfx, nanch);
+    if (nsweep) vf::stat("source_type_family_long_double_exponent_sweep_" + sfx, nsweep);
+    if (g_pathonly) vf::stat("results_judged_by_path_equality_only_" + sfx, g_pathonly);
+    flush_streams();
+    if (shard == 0)
+        std::printf("@@{\"t\":\"xs\",\"k\":\"srcty/0\",\"v\":\"half_cast<half>(long double 1+2^-11+2^-63, one long double ulp above a tie) == %s ; half_cast<half>(long double 2^-25*(1+2^-63)) == %s ; half(long double 65520-2^-48) == %s [" C08_BUILD "]\"}\n",
+                    h2s(impl_ldf_cast(mkld(0x3FFF, 0x8010000000000001ull))).c_str(), h2s(impl_ldf_cast(mkld(16383 - 25, 0x8000000000000001ull))).c_str(), h2s(impl_ldf_ctor(mkld(16383 + 15, 0xFFEFFFFFFFFFFFFFull))).c_str());
+}
+
 // ------------------------------------------------------------------ information only: double -> half, integer <-> half
 static void mode_info()
 {
@@ -1509,6 +1749,7 @@ static int run_one(int argc, char** argv, int i)
     g_a = v[0]; g_b = v[1]; g_c = v[2];
     g_nargs = nops;
     if (fn.find('(') != std::string::npos) { if (!run_one_mixed(fn, v[0], v[1])) return 3; }
+    else if (fn.compare(0, 8, "ld2half_") == 0) { if (nops < 2) return 3; one_ld(v[0] & 0xFFFFu, std::strtoull(argv[i + 2], nullptr, 0), SRC_ALL, fn.c_str()); }
     else if (fn.compare(0, 11, "double2half") == 0 || fn == "longdouble2half_cast") one_double(std::strtoull(argv[i + 1], nullptr, 0), fn.c_str());
     else if (fn == "int2half_cast" || fn == "int2half_ctor" || fn == "longlong2half_cast") one_int((long long)std::strtoull(argv[i + 1], nullptr, 0), fn.c_str());
     else if (fn.compare(0, 14, "float2half_nan") == 0) one_nan_float(v[0], fn.c_str());
@@ -1638,6 +1879,7 @@ int main(int argc, char** argv)
     else if (mode == "nanfam") mode_nanfam();
     else if (mode == "casts") mode_casts(set[0], shard, nshard);
     else if (mode == "f2hb") mode_f2hb();
+    else if (mode == "srcty") mode_srcty(set[0], shard, nshard);
     else if (mode == "mixed") mode_mixed(shard, nshard, set == "s" ? A512 : set == "m" ? A4096 : A_all);
     else if (mode == "info") mode_info();
     else if (mode == "selftest") mode_selftest();
